@@ -798,3 +798,74 @@ def r_wrap_reduce(e, R):
                                                                                  for k in n.value.keywords) for n in func_nodes(pub))
     R.check(okp, "R-WRAP-REDUCE", "wrap_non_picklable_objects passes keep_wrapper to the instance wrapper", pub.short, "keep_wrapper=keep_wrapper", "keep_wrapper ignored", e.loc(pub, pub.node))
     R.floor("R-WRAP-REDUCE", 5)
+
+
+# ---------------------------------------------------------------------------
+# R-REDUCE-TYPES
+# ---------------------------------------------------------------------------
+def _fold_type(expr, local_classes):
+    """The Python type a registration's first argument denotes, for the forms used to name builtin callable types: `types.X`,
+    `functools.partial`, `type(<builtin type>.<attr>)`, `type(<builtin literal>.<attr>)`, `type(_C().f)` / `type(_C.f)` for a class
+    defined in the module.  Folded with the analysing interpreter's own builtins (a fact base, like the stdlib conformance facts);
+    None if the form is not one of these."""
+    import types as _types
+    import functools as _functools
+    builtins_ = {"int": int, "str": str, "list": list, "dict": dict, "set": set, "tuple": tuple, "float": float, "bytes": bytes, "object": object}
+    if isinstance(expr, ast.Attribute) and isinstance(expr.value, ast.Name):
+        if expr.value.id == "types":
+            return getattr(_types, expr.attr, None)
+        if expr.value.id == "functools":
+            return getattr(_functools, expr.attr, None)
+    if isinstance(expr, ast.Call) and isinstance(expr.func, ast.Name) and expr.func.id == "type" and len(expr.args) == 1 and isinstance(expr.args[0], ast.Attribute):
+        a0 = expr.args[0]
+        base = a0.value
+        if isinstance(base, ast.Name) and base.id in builtins_:
+            return type(getattr(builtins_[base.id], a0.attr, None)) if hasattr(builtins_[base.id], a0.attr) else None
+        if isinstance(base, ast.Constant):
+            return type(getattr(base.value, a0.attr, None)) if hasattr(base.value, a0.attr) else None
+        if isinstance(base, (ast.List, ast.Dict, ast.Set, ast.Tuple)) and not ast.dump(base).count("elts=[") > 1:
+            obj = {ast.List: [], ast.Dict: {}, ast.Set: set(), ast.Tuple: ()}[type(base)]
+            return type(getattr(obj, a0.attr)) if hasattr(obj, a0.attr) else None
+        cname = base.func.id if isinstance(base, ast.Call) and isinstance(base.func, ast.Name) else base.id if isinstance(base, ast.Name) else None
+        if cname in local_classes:
+            kinds = local_classes[cname]
+            if a0.attr in kinds:
+                # a plain method looked up on an instance, or a classmethod looked up on the class / an instance: a bound method
+                if (kinds[a0.attr] == "method" and isinstance(base, ast.Call)) or kinds[a0.attr] == "classmethod":
+                    return _types.MethodType
+                if kinds[a0.attr] == "method":
+                    return _types.FunctionType
+    return None
+
+
+def r_reduce_types(e, R):
+    """loky registers reducers for the builtin callable types.  Whether objects of a type carry the instance they are bound to (`__self__`)
+    is a fact about the type; a reducer registered for such a type must ship `__self__`, otherwise `(5).__add__` arrives as `int.__add__`
+    (a different callable: the future holds something else than fn(*args))."""
+    mod = e.prog.modules[RD]
+    local_classes = {}
+    for s in mod.tree.body:
+        if isinstance(s, ast.ClassDef):
+            local_classes[s.name] = {m.name: ("classmethod" if any(norm(d) == "classmethod" for d in m.decorator_list) else
+                                              "staticmethod" if any(norm(d) == "staticmethod" for d in m.decorator_list) else "method")
+                                     for m in s.body if isinstance(m, ast.FunctionDef)}
+    n = 0
+    for s in mod.tree.body:
+        c = s.value if isinstance(s, ast.Expr) else None
+        if not (isinstance(c, ast.Call) and isinstance(c.func, ast.Name) and c.func.id == "register" and len(c.args) == 2 and isinstance(c.args[1], ast.Name)):
+            continue
+        red = e.prog.funcs.get(f"{RD}:{c.args[1].id}")
+        if red is None or not red.params:
+            continue
+        ty = _fold_type(c.args[0], local_classes)
+        if ty is None:
+            raise AnalysisError(f"R-REDUCE-TYPES: the registered type `{norm(c.args[0])}` is not one of the foldable forms")
+        n += 1
+        reads = {x.attr for x in func_nodes(red) if isinstance(x, ast.Attribute) and isinstance(x.value, ast.Name) and x.value.id == red.params[0]}
+        bound = "__self__" in dir(ty)
+        R.check((not bound) or "__self__" in reads, "R-REDUCE-TYPES", f"reducer {red.short} registered for {ty.__name__}: ships __self__ iff the type is a bound callable",
+                red.short, f"register({norm(c.args[0])}, {c.args[1].id})",
+                f"`{norm(c.args[0])}` is {ty.__name__}, whose objects are bound to an instance (`__self__`), but the reducer {red.short} rebuilds the callable from "
+                f"{sorted(reads)} only: the bound object is dropped, the callable that arrives in the worker is the unbound one", f"{mod.path}:{s.lineno}")
+    if n < 4:
+        raise AnalysisError(f"R-REDUCE-TYPES: {n} built-in registrations found (floor 4)")
